@@ -421,6 +421,11 @@ theorem win_guard {s s' : PSys} {i : Nat} {cfg : Cfg} {q : List Nat} (h : applyE
 theorem grow_step (c0 : Cfg) (hne : c0.incoming ≠ [] ∨ c0.outgoing ≠ []) (s s' : PSys) (e : Event)
     (hc : e.cfgOk c0) (hV : InvV c0 (vsys s)) (hL : InvL s) (h : applyEvent s e = .ok s') : Grow s s' := by
   cases e with
+  | read r =>
+    simp only [applyEvent, ok] at h
+    split at h
+    · cases h; exact Grow.refl' rfl rfl
+    · cases h
   | win i cfg q =>
     simp only [Event.cfgOk] at hc
     subst hc
